@@ -201,8 +201,18 @@ pub fn gen_len(r: &mut Rng, allow_big: bool) -> usize {
 
 const MULTI: [&str; 12] = ["é", "ß", "Ж", "中", "日本", "𝄞", "😀", "\u{0}", ".", "\"", "\\", "\u{7f}"];
 
+/// strings that look like something else: JSON text, key-serialisation (PASERK) prefixes, tokens
+pub const LOOKALIKES: [&str; 22] = [
+    "{}", "[]", "[1,2,3]", "{\"a\":1}", "{\"data\":\"x\"}", "null", "true", "123", "\"q\"", "[\"a\",\"b\"]", " {}", "{} ",
+    "k4.local-wrap.pie.AAAAAAAAAAAAAAAAAAAAAAAAAAAAAAAAAAAAAAAAAAAAAAAA", "k4.secret-wrap.pie.AAAA", "k2.localisation", "k4.public.AAAAAAAAAAAAAAAAAAAAAAAAAAAAAAAAAAAAAAAAAAA",
+    "k3.local.x", "k1.secret-pw.y", "v4.local.AAAA", "v2.public.AAAA.AAAA", "{\"kid\":\"k4.lid.abc\"}", "{\"kid\":\"x\",\"vdata\":\"good\",\"sub\":\"good\",\"iat\":\"x\"}",
+];
+
 /// A UTF-8 string of (about) `len` bytes from the chosen alphabet class.
 pub fn gen_text(r: &mut Rng, len: usize) -> String {
+    if len >= 2 && len <= 80 && r.chance(1, 16) {
+        return (*r.pick(&LOOKALIKES)).to_string();
+    }
     let class = r.below(6);
     let mut s = String::with_capacity(len + 4);
     // sometimes a special first code point: byte-order mark, zero-width and bidi marks, whitespace
@@ -310,7 +320,9 @@ pub fn gen_json(r: &mut Rng, depth: u32) -> Value {
             let n = r.usize(4);
             let mut m = serde_json::Map::new();
             for _ in 0..n {
-                m.insert(gen_key(r), gen_json(r, depth - 1));
+                // nested members may be named like registered claims (only top-level names are reserved)
+                let k = if r.chance(1, 6) { (*r.pick(&RESERVED)).to_string() } else { gen_key(r) };
+                m.insert(k, gen_json(r, depth - 1));
             }
             Value::Object(m)
         }
